@@ -30,7 +30,7 @@ func run(c *hc.Ctx) error {
 	n := c.N(1500, 40000)
 	for i := 0; i < n; i++ {
 		sc, plain := mgr.Gen(c.Rng, mgr.GenOptions{Channels: hc.Pick(c.Rng, 0, 1, 1, 2, 3), TooLong: false,
-			Wait: c.Thorough() && i < 400, MaxEntries: hc.Pick(c.Rng, 4, 8, 12), Affected: c.Rng.Chance(50), Foreign: c.Rng.Chance(40)})
+			Wait: c.Thorough() && i < 400, MaxEntries: hc.Pick(c.Rng, 4, 8, 12), Affected: c.Rng.Chance(50), Foreign: c.Rng.Chance(40), Faults: c.Rng.Chance(30)})
 		r.Evaluate(sc, plain)
 	}
 	r.Flush()
